@@ -28,6 +28,12 @@ Clauses ==
        \cup (IF R.kind = "status" /\ ~Deg /\ ~EmptyRange(R.size, R.start, R.length)
              THEN {"P_refused"} ELSE {})
        \cup (IF R.kind = "reply" /\ Deg THEN {"C_small_block_accepted"} ELSE {})
+       \* algs = the request's list of hash names, named = the algorithm the reply says it used ("" = not observed:
+       \* SFTPFile.check drops it); eq is computed by the driver for the algorithm the reply names
+       \cup (IF R.kind = "reply" /\ R.named # "" /\ R.named \notin Listed(R.algs) THEN {"P_unrequested_algorithm"} ELSE {})
+       \* the extension's draft wants the first listed algorithm the server has; the property statement does not say so
+       \cup (IF R.kind = "reply" /\ R.named # "" /\ R.named # FirstSupported(R.algs) THEN {"C_not_first_supported_algorithm"} ELSE {})
+
 
 TInit == tid \in 1..Len(Batch) /\ l = 1 /\ bad = {} /\ Init
 TNext == /\ l = 1 /\ l' = 2 /\ tid' = tid
